@@ -247,4 +247,78 @@ example : ∃ r ∈ exF1, 0 < selRateSpec (groupOf exF1 r) := ⟨⟨⟨1, 1, 2, 
 example : named "equal_opportunity_difference" .toOverall 1 exF1 = some (.value (fin (3/5))) := by decide +kernel
 example : eodds "equalized_odds_difference" .toOverall .worstCase 1 exF1 = some (.value (fin (3/5))) := by decide +kernel
 
+/-! ### (4) work package L3: `accuracy_score` and `zero_one_loss` disparities coincide; equalized-odds ratio ≤ equal-opportunity ratio -/
+
+/-- `accuracy_score = 1 − zero_one_loss` on every non-empty slice with positive weights -/
+theorem accuracy_eq_one_sub_zeroOne (ds : List Dat) (hw : ∀ d ∈ ds, 0 < d.p0) (hne : ds ≠ []) :
+    accuracySpec ds = 1 - zeroOneSpec ds := by
+  have hs := wsum_split (fun _ => true) (fun d => d.y == d.pred) ds
+  simp only [Bool.true_and] at hs
+  have hpos := ne_of_gt (wsum_true_pos hw hne)
+  unfold accuracySpec zeroOneSpec
+  field_simp
+  linarith
+
+/-- **`accuracy_score_difference` = `zero_one_loss_difference`** for every valid dataset with 0/1 labels and predictions,
+    both `method`s (they are the disparity ErrorRateParity constrains, C06X `erp_difference_le_of_constraint`) -/
+theorem accuracy_difference_eq_zero_one_difference (meth : Method) (nsf : Nat) (rows : List (Row Dat))
+    (hv : Valid nsf rows) (hb : BinaryRows rows) :
+    run .accuracy .difference meth true nsf rows = run .zeroOne .difference meth true nsf rows := by
+  have hfa := finiteOn_of_spec hv hb (rfl : specOf .accuracy = some accuracySpec)
+  have hfz := finiteOn_of_spec hv hb (rfl : specOf .zeroOne = some zeroOneSpec)
+  have hg : ∀ r ∈ rows, accuracySpec (groupOf rows r) = 1 - zeroOneSpec (groupOf rows r) :=
+    fun r hr => accuracy_eq_one_sub_zeroOne _ (group_weights hv r) (groupOf_ne_nil hr)
+  have hne : slice rows ≠ [] := by simpa [slice] using hv.ne
+  have ho : accuracySpec (slice rows) = 1 - zeroOneSpec (slice rows) :=
+    accuracy_eq_one_sub_zeroOne _ (slice_weights hv) hne
+  cases meth
+  · obtain ⟨mna, mxa, hmna, hmxa, ha⟩ := difference_between_spec hv hfa
+    obtain ⟨mnz, mxz, hmnz, hmxz, hz⟩ := difference_between_spec hv hfz
+    have e1 : mna = 1 - mxz := by
+      apply groupMin_unique hmna
+      obtain ⟨⟨r, hr, e⟩, hle⟩ := hmxz
+      exact ⟨⟨r, hr, by rw [hg r hr, e]⟩, fun r' hr' => by rw [hg r' hr']; linarith [hle r' hr']⟩
+    have e2 : mxa = 1 - mnz := by
+      apply groupMax_unique hmxa
+      obtain ⟨⟨r, hr, e⟩, hle⟩ := hmnz
+      exact ⟨⟨r, hr, by rw [hg r hr, e]⟩, fun r' hr' => by rw [hg r' hr']; linarith [hle r' hr']⟩
+    rw [ha, hz, e1, e2]
+    congr 2; ring
+  · obtain ⟨Da, ha, ⟨ra, hra, ea⟩, hla⟩ := difference_overall_spec hv hfa
+    obtain ⟨Dz, hz, ⟨rz, hrz, ez⟩, hlz⟩ := difference_overall_spec hv hfz
+    have key : ∀ r ∈ rows, |accuracySpec (groupOf rows r) - accuracySpec (slice rows)|
+        = |zeroOneSpec (groupOf rows r) - zeroOneSpec (slice rows)| := by
+      intro r hr
+      rw [hg r hr, ho, ← abs_neg]
+      congr 1; ring
+    have e : Da = Dz := by
+      apply le_antisymm
+      · rw [ea, key ra hra]; exact hlz ra hra
+      · rw [ez, ← key rz hrz]; exact hla rz hrz
+    rw [ha, hz, e]
+
+/-- **equalized_odds_ratio (worst case) is the smaller of the TPR and the FPR ratio**, hence at most
+    `equal_opportunity_ratio` — the ratio-form companion of `eodds_ge_eopp` (whenever both ratios are finite numbers;
+    `eodds_ratio_eq_spec` describes the NaN cases) -/
+theorem eodds_ratio_le_eopp (meth : Method) (nsf : Nat) (rows : List (Row Dat)) (hv : Valid nsf rows)
+    (hb : BinaryRows rows) (A F : Rat)
+    (hA : named "equal_opportunity_ratio" meth nsf rows = some (.value (fin A)))
+    (hF : run .fpr .ratio meth true nsf rows = .value (fin F)) :
+    eodds "equalized_odds_ratio" meth .worstCase nsf rows = some (.value (fin (min A F))) ∧
+    min A F ≤ A ∧ min A F ≤ F := by
+  obtain ⟨a, b, ha, hb', he⟩ := eodds_def "equalized_odds_ratio" "ratio" "min" .ratio
+    (by decide +kernel) (by decide +kernel) meth .worstCase nsf rows hv hb
+  rw [equal_opportunity_ratio_def] at hA
+  injection hA with hA
+  rw [hA] at ha; rw [hF] at hb'
+  injection ha with ha; injection hb' with hb'
+  subst ha; subst hb'
+  refine ⟨?_, min_le_left _ _, min_le_right _ _⟩
+  rw [he]; simp only [pyFold_min_fin, Option.map_some]
+
+example : run .accuracy .difference .between true 1 exF1 = run .zeroOne .difference .between true 1 exF1 :=
+  accuracy_difference_eq_zero_one_difference .between 1 exF1 ⟨by decide, by decide, by decide, by decide +kernel⟩ (by decide +kernel)
+example : run .accuracy .difference .toOverall true 1 exF1 = .value (fin (1/2)) ∧
+    run .zeroOne .difference .between true 1 exF1 = .value (fin (3/4)) := by decide +kernel
+
 end C03
